@@ -31,3 +31,77 @@ NOT_APPLICABLE = {}
 
 # Commits in /repo that add the guarded hooks.
 HOOK_COMMITS = ["26af993", "a795da4", "02f2d5d"]
+
+_COMPOSE_RULE = ("Each case draws a WIT library (1-4 interfaces with records/variants/enums/flags/lists/options/results/"
+                 "tuples/resources with constructors/methods/statics/borrows, chains of cross-interface `use` with renames, "
+                 "optionally a second version on the same semver track, one on another track and a second package using "
+                 "types across packages), builds 2-5 real components from generated worlds with wit-component's dummy "
+                 "module, then builds a composition through the public CompositionGraph API: 1-6 instantiations (packages "
+                 "re-used), each argument left implicit, wired to an alias of another instance's export (same-name "
+                 "candidates preferred, other same-kind candidates tried so rejections are exercised, occasionally back "
+                 "edges giving cycles) or to an explicit import node; exports under inferred/fresh/several names; node names. ")
+
+PROPS["C01"] = {
+    "shards": 16,
+    "quick_budget_s": 60,
+    "thorough_budget_s": 900,
+    "floors": {"any": {"compositions": 200, "encode:ok": 400, "validated-by-harness": 400, "arg-edges": 100,
+                       "implicit-args": 100, "encode:implicit-import-conflict": 1}},
+    "rule": _COMPOSE_RULE + "Every composition is encoded under the 4 option combinations (dependencies embedded|imported x "
+            "validate on|off); each Ok output is validated by the harness with wasmparser (all features). Non-trivial: >=1 "
+            "instantiation and (>=1 argument edge or >=1 implicit import); distinct by hash of the operation sequence "
+            "(node numbers abstracted) + world shapes.",
+    "assumptions": ["wasmparser::Validator(WasmFeatures::all()) 0.247 is the reference validator (the only one available offline); "
+                    "independence is of invocation, not implementation",
+                    "wit-parser/wit-component 0.247 produce valid components for the generated worlds (checked: ComponentEncoder validates)"],
+    "technique": "runtime monitor: reference-validator oracle on every encode output of generated compositions (4 option combinations)",
+    "level_text": "Every encode() result of the workload is observed: Ok bytes are validated by the harness itself, ValidationFailure "
+                  "and panics are refuting events, validate=true/false must give identical bytes. Reaches what fixtures cannot by "
+                  "generating thousands of libraries x topologies; failures are attributed to a cause with the generator's model so "
+                  "that recorded findings do not mask new ones.",
+    "level_note": "Trusts wasmparser's validator and wit-component's encoder. Held on the shapes generated, not for all libraries.",
+}
+
+PROPS["C02"] = {
+    "shards": 16,
+    "quick_budget_s": 60,
+    "thorough_budget_s": 900,
+    "floors": {"any": {"decoded-outputs": 400, "instantiations-compared": 400, "exports-compared": 200,
+                       "names-compared": 300, "arg-edges": 150}},
+    "rule": _COMPOSE_RULE + "Biased to what validity cannot see (2-3 packages instantiated 2-6 times, 60-100% of arguments wired, "
+            "nodes exported under several names, half of the runs name every node). Both dependency modes are encoded without "
+            "wac's validation and read back by the independent decoder; instantiation terms (multiset), export bindings, "
+            "embedded digests / component imports and the name section are compared with terms computed from public graph "
+            "queries. Non-trivial: >=2 instantiations, >=1 explicit argument edge, >=1 export; distinct by operation-sequence hash.",
+    "assumptions": ["wasmparser's section *reader* (not its validator, not wac's decoder) splits the payloads; the index-space replay is the harness's own",
+                    "an export introduces a new index denoting the same item (component-model rule)"],
+    "technique": "runtime monitor: translation validation of every encode output by an independent decoder against public graph queries",
+    "level_text": "Each output binary is decoded independently into provenance terms (import / embedded digest / instantiation with named "
+                  "arguments / alias of export) and compared, up to renumbering, with the same terms derived from the graph's public "
+                  "queries; catches swapped equal-typed arguments, wrong alias sources, neighbouring-index exports, double embedding and "
+                  "misattributed names, which all still validate.",
+    "level_note": "Differences explained solely by wac's merging of imports of one interface / semver track are reported under one "
+                  "recorded finding (normalised comparison); everything else is a violation.",
+}
+
+PROPS["C03"] = {
+    "shards": 16,
+    "quick_budget_s": 60,
+    "thorough_budget_s": 900,
+    "floors": {"any": {"encode:ok": 300, "compositions-with-shared-implicit-import": 100, "compositions-with-versioned-group": 10,
+                       "shared-import-union-checked": 300, "encode:implicit-import-conflict": 5}},
+    "rule": _COMPOSE_RULE + "Libraries always carry versions (same track, other track, unversioned second package); 0-80% of arguments "
+            "wired so that many stay implicit. Expected import names = explicit names + one canonical (highest) name per semver "
+            "track of unsatisfied argument names (model M2 on the semver crate); output names must equal expected + a subset of the "
+            "generator's `use` closure; no two imports on one track; every shared instance import must export at least the names "
+            "each sharer's own binary import requires (read by the independent decoder); exports and their kinds; imports() "
+            "listing; identical non-component imports in both dependency modes; ImplicitImportConflict exactly when an unsatisfied "
+            "name equals an explicit name. Non-trivial: >=2 instantiations sharing an import group, or a versioned group.",
+    "assumptions": ["'the interfaces those types depend on' is checked as an upper bound (subset of the use-closure in the generator's model)",
+                    "same-track versions generated by the library generator are compatible by construction (later = earlier + functions)"],
+    "technique": "runtime monitor: reference model of implied imports/exports (semver-track grouping) vs independently decoded import/export sections",
+    "level_text": "Every encodable composition's import and export sections are compared with a model computed from the graph view and the "
+                  "generator's knowledge of the library; conflicts are predicted and compared with the encode error. Violations are "
+                  "attributed to a cause so the recorded import-merging findings do not mask a wrong canonical name or a lost import.",
+    "level_note": "Inside a group of names that wac merges (same interface id / same semver track) only the existence of an import of the group is demanded and the deviation is reported under one recorded finding; canonical-name selection itself is decided at the aggregator level by C09. Creation-order permutations are covered by C16's workload.",
+}
